@@ -198,6 +198,53 @@ impl Decoder {
 //@ end
 }
 
+// ---- headers.rs `Headers::with_frame`: any decoding failure is QPACK_DECOMPRESSION_FAILED -----------
+//@ extract wtransport-proto/src/error.rs >> enum ErrorCode
+//@ end
+
+//@ extract wtransport-proto/src/frame.rs >> enum FrameKind
+//@ end
+
+//@ extract wtransport-proto/src/varint.rs >> struct VarInt
+//@ end
+
+// frame.rs Frame (verified in unit `frame`): only kind() and payload() are used
+#[verifier::external_body]
+struct Frame<'a> {
+    p: &'a [u8],
+}
+
+impl<'a> Frame<'a> {
+    uninterp spec fn is_headers(&self) -> bool;
+    uninterp spec fn payload_view(&self) -> Seq<u8>;
+
+    #[verifier::external_body]
+    fn kind(&self) -> (r: FrameKind)
+        ensures (r is Headers) == self.is_headers(),
+    {
+        unimplemented!()
+    }
+
+    #[verifier::external_body]
+    fn payload(&self) -> (r: &[u8])
+        ensures r@ == self.payload_view(),
+    {
+        unimplemented!()
+    }
+}
+
+//@ extract wtransport-proto/src/headers.rs >> struct Headers
+//@ subst `HashMap<String, String>` => `HeaderMap`
+//@ end
+
+impl Headers {
+//@ extract wtransport-proto/src/headers.rs >> impl Headers >> fn with_frame
+//@ subst `.map_err(|_| ErrorCode::Decompression)?` => `.map_err(|_e: DecodingError| -> (o: ErrorCode) ensures o == ErrorCode::Decompression { ErrorCode::Decompression })?`
+//@ requires frame.is_headers()
+//@ ensures r matches Err(e) ==> e == ErrorCode::Decompression
+//@ end
+}
+
 } // verus!
 
 fn main() {}
